@@ -47,6 +47,10 @@ def gen_dopts(rng, fmt):
             d["gf_separator"] = rng.choice(["#", "-", "~"])
         if rng.random() < 0.3:
             d["gf_terminals"] = True
+    if fmt in ("export", "brackets", "discobrackets", "tigerxml") and rng.random() < 0.08:
+        # decorations for head marking / Boyd split: nothing is marked or split in a plain
+        # conversion, so there is nothing to output
+        d[rng.choice(["mark_heads_marking", "boyd_split_marking", "boyd_split_numbering"])] = True
     if fmt == "brackets":
         if rng.random() < 0.3:
             d["brackets_emptyroot"] = True
